@@ -162,8 +162,24 @@ def dAttr (S : Schema) (P : Prog) (all : List Field) (i : Nat) (f : Field) (st :
     | .matchOn key pairs, .dispatch k tbl j =>
       if j ≠ i then "member" else if fieldIdx all key ≠ some k then "key-member"
       else match keyWidthOf all key, P.table tbl with
-        | some kw, some t => if t.keyWidth ≠ kw then "table.keywidth" else if !t.errOnMiss then "table.onmiss"
-            else if !tableOk kw pairs t then "table.entries" else "?"
+        | some kw, some t =>
+          -- is the table this field dispatches through the table of ANOTHER match field of the same packet
+          -- (factories named after the packet: the known Python / C++ collision)?  Anything else is this field's own table.
+          let shared := all.any fun g => g.name ≠ f.name &&
+            (match g.kind with
+             | .matchOn key2 pairs2 =>
+               (match keyWidthOf all key2 with
+                | some kw2 => t.entries.map (normKey kw2) == pairs2.map (normKey kw2)
+                | none => false)
+             | _ => false)
+          let own := if shared then "" else "/own-table"
+          -- … or keyed like another match field of the same packet (same collision, seen from the field defined last)
+          let sharedKw := all.any fun g => g.name ≠ f.name &&
+            (match g.kind with
+             | .matchOn key2 _ => (match keyWidthOf all key2 with | some kw2 => kw2 == t.keyWidth | none => false)
+             | _ => false)
+          if t.keyWidth ≠ kw then "table.keywidth" ++ (if shared || sharedKw then "" else "/own-table") else if !t.errOnMiss then "table.onmiss"
+            else if !tableOk kw pairs t then "table.entries" ++ own else "?"
         | none, _ => "key-type"
         | _, none => "table-missing"
     | _, .skip _ => "skipped"
